@@ -133,6 +133,13 @@ impl FileSystem {
                     Component::Normal(name) => name,
                     Component::RootDir | Component::CurDir => continue,
                     Component::ParentDir => {
+                        // `..` can only be looked up in a directory.
+                        if !matches!(
+                            nodes.last().unwrap().borrow().body,
+                            FileBody::Directory { .. }
+                        ) {
+                            return Err(Errno::ENOTDIR);
+                        }
                         if nodes.len() > 1 {
                             nodes.pop();
                         }
@@ -156,7 +163,9 @@ impl FileSystem {
             }
 
             let node = nodes.pop().unwrap();
-            if path.as_unix_str().as_bytes().ends_with(b"/")
+            // `components` ignores a trailing `/` or `/.`, which is only valid for a directory.
+            let bytes = path.as_unix_str().as_bytes();
+            if (bytes.ends_with(b"/") || bytes.ends_with(b"/."))
                 && !matches!(&node.borrow().body, FileBody::Directory { .. })
             {
                 return Err(Errno::ENOTDIR);
